@@ -63,7 +63,7 @@ theorem encodeFrame_chunks (i : Info) (g : i.Geo) (src : Array Byte)
   have hn := g.nseg_le
   have hpos : 1 ≤ i.nativeLen := by
     rw [g.hnat]; exact Nat.mul_pos g.nseg_pos g.hpc
-  apply encodeFrame_eq i src (planeP i src) (by omega) (by omega)
+  apply encodeFrame_eq i src (planeP i src) (by omega) (by omega) g.nseg_pos g.hpc
   intro t ht
   exact readPlane_eq src _ _ _ (fun k hk => by rw [hlen]; exact g.inb ht hk)
 
